@@ -70,7 +70,7 @@ func TestC05(t *testing.T) {
 			return genHistory(t)
 		}
 		c := genTrieCase(t, trieGenOpt{})
-		c.Load = []string{"reload", "proto"}[pickU(t, "via", 2)]
+		c.Load = []string{"reload", "proto", "over"}[pickU(t, "via", 3)]
 		genExtra(t, c)
 		return c
 	})
@@ -91,7 +91,7 @@ func TestC06(t *testing.T) {
 			}
 		}
 		c.Load = ""
-		for try := 0; c.Load == "" || c.Load == "reload" || c.Load == "proto"; try++ {
+		for try := 0; c.Load == "" || c.Load == "reload" || c.Load == "proto" || c.Load == "over"; try++ {
 			forceLegacy(t, c)
 			if try > 8 {
 				// the key set cannot be encoded by the old three-section writers: use the 0.5.10 layout
